@@ -9,6 +9,9 @@ LABELS = {11: 'node lies in the canonical interval', 12: 'basis function is one 
           51: 'evalSupport agrees with evalRaw', 52: 'basis vanishes farther from its node than getSupport()', 53: 'basis vanishes where evalSupport reports no support',
           71: 'every level has at least one point', 72: 'the number of points grows strictly with the level', 73: 'n points interpolate degree n-1 exactly (getIExact == getNumPoints - 1; +2 for clenshaw-curtis-zero)', 74: 'getIExact - 1 <= getQExact <= 2 getNumPoints + 1',
           61: 'int2log2 is the largest power of two not exceeding the argument', 62: 'int3log3 is the smallest power of three above the argument', 63: 'intlog2 is the floor of the binary logarithm', 64: 'pow2/pow3 agree with repeated multiplication',
+          81: 'merge of two sorted index sets is strictly sorted and its cached count matches its storage', 82: 'merge loses nothing: every index of either operand is found', 83: 'merge invents nothing', 84: 'set difference is strictly sorted',
+          85: 'A - B holds exactly the indexes of A that are not in B', 86: 'getSlot returns the position of the index and -1 iff it is absent', 87: 'removeIndex removes exactly that index',
+          88: 'StorageSet::addValues: the i-th strip is the value supplied for the i-th index of the merged set', 89: 'MultiIndexSet(Data2D) is the sorted duplicate-free set of the given rows',
           99: 'reachability witness'}
 CFLAGS = '-std=c++14 -O1 -fno-vectorize -fno-slp-vectorize -fno-unroll-loops'
 
@@ -18,9 +21,9 @@ def incs():
 
 
 class KConfig:
-    def __init__(self, name, harness, defines, unwind=16, entry='harness_rule', timeout=600, modv=200, link_lib=False):
+    def __init__(self, name, harness, defines, unwind=16, entry='harness_rule', timeout=600, modv=200, link_lib=False, mem_gb=8, slots=1):
         self.name, self.harness, self.defines, self.unwind, self.entry, self.timeout, self.modv = name, harness, defines, unwind, entry, timeout, modv
-        self.args = [defines]; self.time_budget_s = timeout; self.max_paths = 1; self.link_lib = link_lib
+        self.args = [defines]; self.time_budget_s = timeout; self.max_paths = 1; self.link_lib = link_lib; self.mem_gb = mem_gb; self.slots = slots
 
 
 def sh(cmd, timeout=900):
@@ -68,8 +71,14 @@ def run_k(kc):
                 if len(l.split()) == 2: seen_ids.add('K' + l.split()[0])
         res['translator_validated'] = agree; res['notes']['validation_inputs_past_assumes'] = used; res['relevant_ids'] = sorted(seen_ids)
     # ---- the verdict
-    r, dt = sh('cbmc %s/h.c %s %s 2>&1' % (d, sup, flags), kc.timeout); res['stats']['queries'] += 1; res['stats']['solver_s'] += dt
-    out = r.stdout
+    cbmc = 'ulimit -v %d; timeout %d cbmc' % (kc.mem_gb * 1000000, kc.timeout)   # address-space cap: an out-of-memory run is reported as 'no verdict', never as success
+    for attempt in range(3):   # the bound is raised (twice at most) when an unwinding assertion fails; the bound that was used is reported
+        r, dt = sh('%s %s/h.c %s %s 2>&1' % (cbmc, d, sup, flags), kc.timeout + 30); res['stats']['queries'] += 1; res['stats']['solver_s'] += dt
+        out = r.stdout
+        pf = re.findall(r'^\[([^\]]+)\] (?:line \d+ )?(.*?): (SUCCESS|FAILURE)$', out, re.M)
+        if attempt < 2 and pf and any('unwinding assertion' in p[1] and p[2] == 'FAILURE' for p in pf) and not any('unwinding assertion' not in p[1] and p[2] == 'FAILURE' for p in pf):
+            flags = flags.replace('--unwind %d ' % kc.unwind, '--unwind %d ' % (kc.unwind + 2)); kc.unwind += 2; continue
+        break
     props = re.findall(r'^\[([^\]]+)\] (?:line \d+ )?(.*?): (SUCCESS|FAILURE)$', out, re.M)
     if 'VERIFICATION' not in out:
         res['inconclusive'].append({'what': 'cbmc gave no verdict', 'detail': out[-500:]}); res['wall'] = time.time() - t0; return res
@@ -82,16 +91,19 @@ def run_k(kc):
     real_fails = [p for p in fails if 'unwinding' not in p[1]]
     if real_fails:
         # counterexample: first failing property with a trace, replayed on the g++ build of the real code
-        r, dt = sh('cbmc %s/h.c %s %s --stop-on-fail --trace 2>&1' % (d, sup, flags), kc.timeout); res['stats']['queries'] += 1; res['stats']['solver_s'] += dt
+        r, dt = sh('%s %s/h.c %s %s --stop-on-fail --trace 2>&1' % (cbmc, d, sup, flags), kc.timeout + 30); res['stats']['queries'] += 1; res['stats']['solver_s'] += dt
         # nondet values: the generated C assigns `vK = nondet_int();`; the trace reports the assignment at that line
         vals = []
         csrc = open('%s/h.c' % d).read().split('\n')
+        nd_lines = {}
         for ln, line in enumerate(csrc, 1):
             mm0 = re.match(r'\s*(v\d+) = nondet_int\(\);', line)
-            if not mm0: continue
-            mt = re.search(r'State \d+ file [^\n]*h\.c function \w+ line %d thread 0\n-+\n\s*%s=(-?\d+)' % (ln, mm0.group(1)), r.stdout)
-            if mt:
-                v = int(mt.group(1)); vals.append(str(v - (1 << 32) if v >= (1 << 31) else v))
+            if mm0: nd_lines[ln] = mm0.group(1)
+        # every execution of such a line, in trace order (a line inside a loop is executed several times)
+        for mt in re.finditer(r'State \d+ file [^\n]*h\.c function \w+ line (\d+) thread 0\n-+\n\s*(v\d+)=(-?\d+)', r.stdout):
+            ln = int(mt.group(1))
+            if nd_lines.get(ln) == mt.group(2):
+                v = int(mt.group(3)); vals.append(str(v - (1 << 32) if v >= (1 << 31) else v))
         m = re.search(r'K(\d+)\n?.*?\n', r.stdout); failing = re.findall(r'Violated property:.*?\n.*?\n\s*(.*?)\n', r.stdout, re.S)
         kid = None
         mm = re.search(r'Violated property:\n\s*file[^\n]*\n\s*([^\n]+)\n', r.stdout)
@@ -103,7 +115,7 @@ def run_k(kc):
                                 'confirmed': confirmed, 'replay_observed': 'real code (g++) with nondet values %s prints: %s' % (vals, rr.stdout.strip().replace('\n', '; ')[-200:]), 'path': 0,
                                 'other_failing_properties': [p[1] for p in real_fails][:6]})
     # ---- witness twin: the final assert(0) must be reachable
-    r, dt = sh('cbmc %s/w.c %s %s 2>&1' % (d, sup, flags), kc.timeout); res['stats']['queries'] += 1; res['stats']['solver_s'] += dt
+    r, dt = sh('%s %s/w.c %s %s 2>&1' % (cbmc, d, sup, flags), kc.timeout + 30); res['stats']['queries'] += 1; res['stats']['solver_s'] += dt
     if not re.search(r'K99: FAILURE', r.stdout): res['inconclusive'].append({'what': 'vacuous: the reachability witness did not fail (the assertions are not reached)'})
     res['notes']['witness_twin_failed_as_required'] = 1 if re.search(r'K99: FAILURE', r.stdout) else 0
     ks = [k for k in res.get('relevant_ids', []) if re.match(r'K\d+$', k)]
